@@ -1,6 +1,9 @@
-// C40 correspondence: real spec/tun.Pipe / pipe vs the Lean copier model and the Pipe-level spec.
-//   copier: the real `pipe` goroutine body over scripted reader / writer streams (D)
+// C40 correspondence: real spec/tun.Pipe vs the Lean copier model, the duplex buffer model and the Pipe-level spec.
+// Only the exported Pipe is called (no shim): a refactoring of the unexported helper must not blind the check.
+//   copier: one copier of the real `Pipe` over scripted reader / writer streams, the opposite copier parked (D)
 //   pipe2 : the real `Pipe` over two scripted streams (D: both copiers, error multiset, close counts, channel)
+//   duplex: the real `Pipe` with both directions busy at once, scheduled event by event; every Write is consumed
+//           piece by piece by a slow consumer that looks at the bytes when it takes them (D + spec)
 //   live  : the real `Pipe` over two bufconn pairs with client goroutines (V)
 package main
 
@@ -78,11 +81,47 @@ type script struct {
 	calls  [][]byte
 	closes int
 	tag    byte
-	log    *[]byte
-	logMu  *sync.Mutex
+	cl     *closeLog
+	park   bool // Read waits until both streams have been closed once, then reports end-of-stream
+}
+
+// closeLog records the Close calls on a reader/writer pair in order and releases the parked copier once both
+// streams have been closed (by then the copier under observation has done its closing).
+type closeLog struct {
+	mu       sync.Mutex
+	log      []byte
+	mark     int // number of Close calls made before the release
+	released bool
+	gate     chan struct{}
+}
+
+func (c *closeLog) release() {
+	if !c.released {
+		c.released = true
+		c.mark = len(c.log)
+		close(c.gate)
+	}
+}
+
+func (c *closeLog) closed(tag byte) {
+	c.mu.Lock()
+	defer c.mu.Unlock()
+	c.log = append(c.log, tag)
+	r, w := false, false
+	for _, t := range c.log {
+		r = r || t == 'R'
+		w = w || t == 'W'
+	}
+	if r && w {
+		c.release()
+	}
 }
 
 func (s *script) Read(p []byte) (int, error) {
+	if s.park {
+		<-s.cl.gate
+		return 0, io.EOF
+	}
 	s.mu.Lock()
 	defer s.mu.Unlock()
 	if len(s.reads) == 0 {
@@ -110,10 +149,8 @@ func (s *script) Close() error {
 	s.mu.Lock()
 	s.closes++
 	s.mu.Unlock()
-	if s.log != nil {
-		s.logMu.Lock()
-		*s.log = append(*s.log, s.tag)
-		s.logMu.Unlock()
+	if s.cl != nil {
+		s.cl.closed(s.tag)
 	}
 	return nil
 }
@@ -221,30 +258,62 @@ func genWrites(rng *hlib.Rng, rs []readRes) []writeRes {
 	return ws
 }
 
+func sortedTags(b []byte) string {
+	c := append([]byte{}, b...)
+	sort.Slice(c, func(i, j int) bool { return c[i] < c[j] })
+	return string(c)
+}
+
 func runCopier(r *hlib.Run, rs []readRes, ws []writeRes) {
-	var log []byte
-	var lm sync.Mutex
-	reader := &script{reads: append([]readRes{}, rs...), tag: 'R', log: &log, logMu: &lm}
-	writer := &script{writes: append([]writeRes{}, ws...), tag: 'W', log: &log, logMu: &lm}
-	res := func() (out string) {
-		defer func() {
-			if e := recover(); e != nil {
-				out = "panic"
+	cl := &closeLog{gate: make(chan struct{})}
+	reader := &script{reads: append([]readRes{}, rs...), tag: 'R', cl: cl}
+	writer := &script{writes: append([]writeRes{}, ws...), tag: 'W', cl: cl, park: true}
+	ch := tun.Pipe(reader, writer) // copier under observation: reader -> writer; the opposite one is parked in writer.Read
+	var sent []error
+	chanState := "closed"
+	guard := time.NewTimer(10 * time.Second)
+	forced := false
+loop:
+	for {
+		select {
+		case e, ok := <-ch:
+			if !ok {
+				break loop
 			}
-		}()
-		sent := tun.VerifPipeOne(reader, writer)
-		e := "n"
-		if len(sent) == 1 {
-			e = errName(sent[0])
-			if sent[0] == nil {
-				e = "nil-sent"
+			sent = append(sent, e)
+		case <-guard.C:
+			if forced {
+				chanState = "open"
+				hangs++
+				break loop
 			}
-		} else if len(sent) > 1 {
-			e = "many"
+			forced = true // the copier never closed both streams: let the parked one go and see what happens
+			cl.mu.Lock()
+			cl.release()
+			cl.mu.Unlock()
+			guard.Reset(5 * time.Second)
 		}
-		sort.Slice(log, func(i, j int) bool { return log[i] < log[j] }) // the order of the two Close calls is not part of the property
-		return fmt.Sprintf("calls=%s;err=%s;closes=%s", callsTok(writer.calls), e, string(log))
-	}()
+	}
+	guard.Stop()
+	e := "n"
+	if len(sent) == 1 {
+		e = errName(sent[0])
+		if sent[0] == nil {
+			e = "nil-sent"
+		}
+	} else if len(sent) > 1 {
+		e = "many"
+	}
+	cl.mu.Lock()
+	// the order of the Close calls is not part of the property
+	closes, total := sortedTags(cl.log[:cl.mark]), sortedTags(cl.log)
+	cl.mu.Unlock()
+	if closes == "" {
+		closes = "-"
+	}
+	writer.mu.Lock()
+	res := fmt.Sprintf("calls=%s;err=%s;closes=%s;total=%s;chan=%s", callsTok(writer.calls), e, closes, total, chanState)
+	writer.mu.Unlock()
 	lhs := "copier " + readsTok(rs) + " " + writesTok(ws)
 	r.Emit(lhs, res)
 	r.Case(lhs)
@@ -294,6 +363,249 @@ loop:
 	r.Emit(lhs, res)
 	r.Case(lhs)
 	r.Count("pipe2:nerr=" + strconv.Itoa(len(errs)))
+}
+
+// ---- duplex: both directions at once, scheduled event by event ----
+
+type dev struct {
+	kind byte // 'r' read chunk, 'd' drain k bytes, 'e' end-of-stream, 'x' read error
+	dir  byte // 'A': X -> Y, 'B': Y -> X
+	data []byte
+	k    int
+}
+
+func (e dev) tok() string {
+	switch e.kind {
+	case 'r':
+		return "r" + string(e.dir) + "." + hlib.Hex(e.data)
+	case 'e':
+		return "e" + string(e.dir)
+	}
+	return string(e.kind) + string(e.dir) + "." + strconv.Itoa(e.k)
+}
+
+func schedTok(evs []dev) string {
+	var xs []string
+	for _, e := range evs {
+		xs = append(xs, e.tok())
+	}
+	return hlib.Join(xs, "/")
+}
+
+func parseSched(t string) []dev {
+	var out []dev
+	if t == "-" {
+		return out
+	}
+	for _, it := range strings.Split(t, "/") {
+		p := strings.SplitN(it, ".", 2)
+		if len(p[0]) != 2 {
+			continue
+		}
+		e := dev{kind: p[0][0], dir: p[0][1]}
+		if len(p) == 2 {
+			if e.kind == 'r' {
+				e.data = hlib.UnHex(p[1])
+			} else {
+				e.k, _ = strconv.Atoi(p[1])
+			}
+		}
+		out = append(out, e)
+	}
+	return out
+}
+
+var errStuck = errors.New("stuck")
+
+type dctl struct {
+	mu    sync.Mutex
+	cond  *sync.Cond
+	evs   []dev
+	pos   int
+	abort bool
+}
+
+func (c *dctl) head() (dev, bool) {
+	if c.pos < len(c.evs) {
+		return c.evs[c.pos], true
+	}
+	return dev{}, false
+}
+
+// dstream is one of the two piped streams. Its Read answers the events of the direction it is the source of; its
+// Write is consumed piece by piece by the drain events of the direction it is the destination of, and the bytes
+// of a piece are looked at when the piece is taken (as a synchronous pipe or a flow-controlled stream does).
+type dstream struct {
+	c        *dctl
+	rdir     byte // direction this stream is the source of
+	wdir     byte // direction this stream is the destination of
+	closes   int
+	received []byte
+}
+
+func (s *dstream) Read(p []byte) (int, error) {
+	c := s.c
+	c.mu.Lock()
+	defer c.mu.Unlock()
+	for {
+		if c.abort {
+			return 0, errStuck
+		}
+		if s.closes > 0 {
+			return 0, io.ErrClosedPipe
+		}
+		if h, ok := c.head(); ok && h.dir == s.rdir && h.kind != 'd' {
+			c.pos++
+			c.cond.Broadcast()
+			switch h.kind {
+			case 'r':
+				return copy(p, h.data), nil
+			case 'e':
+				return 0, io.EOF
+			default:
+				return 0, kerr(h.k)
+			}
+		}
+		c.cond.Wait()
+	}
+}
+
+func (s *dstream) Write(p []byte) (int, error) {
+	c := s.c
+	c.mu.Lock()
+	defer c.mu.Unlock()
+	off := 0
+	for off < len(p) {
+		if c.abort {
+			return off, errStuck
+		}
+		if s.closes > 0 {
+			return off, io.ErrClosedPipe
+		}
+		if h, ok := c.head(); ok && h.dir == s.wdir && h.kind == 'd' {
+			k := h.k
+			if k > len(p)-off {
+				k = len(p) - off
+			}
+			s.received = append(s.received, p[off:off+k]...) // the consumer takes the piece now
+			off += k
+			c.pos++
+			c.cond.Broadcast()
+			continue
+		}
+		c.cond.Wait()
+	}
+	return off, nil
+}
+
+func (s *dstream) Close() error {
+	s.c.mu.Lock()
+	s.closes++
+	s.c.cond.Broadcast()
+	s.c.mu.Unlock()
+	return nil
+}
+
+// genSched builds a schedule two copiers can follow: a direction reads only when it has no write in flight, drains
+// take at most what is left of the write in flight, and the side that ends has nothing in flight.
+func genSched(r *hlib.Run, rng *hlib.Rng) []dev {
+	rem := map[byte]int{'A': 0, 'B': 0}
+	var evs []dev
+	n := 2 + rng.Intn(14)
+	overlap := false
+	for i := 0; i < n; i++ {
+		d := hlib.Pick(rng, []byte{'A', 'B'})
+		if rem[d] == 0 {
+			sz := 1 + rng.Intn(8)
+			if rng.Chance(8) {
+				sz = 0 // Read returning (0, nil)
+			} else if rng.Chance(5) {
+				sz = 100 + rng.Intn(400)
+			}
+			evs = append(evs, dev{kind: 'r', dir: d, data: rng.Bytes(sz)})
+			rem[d] = sz
+			if rem['A'+'B'-d] > 0 && sz > 0 {
+				overlap = true
+			}
+		} else {
+			k := 1 + rng.Intn(rem[d])
+			if rng.Chance(30) {
+				k = rem[d]
+			}
+			evs = append(evs, dev{kind: 'd', dir: d, k: k})
+			rem[d] -= k
+		}
+	}
+	d := hlib.Pick(rng, []byte{'A', 'B'})
+	for rem[d] > 0 { // the ending side's last write completes first
+		k := 1 + rng.Intn(rem[d])
+		evs = append(evs, dev{kind: 'd', dir: d, k: k})
+		rem[d] -= k
+	}
+	if rng.Chance(70) {
+		evs = append(evs, dev{kind: 'e', dir: d})
+		r.Count("duplex:end=eof-" + string(d))
+	} else {
+		evs = append(evs, dev{kind: 'x', dir: d, k: 1 + rng.Intn(3)})
+		r.Count("duplex:end=error-" + string(d))
+	}
+	if overlap {
+		r.Count("duplex:read-while-opposite-write-in-flight")
+	} else {
+		r.Count("duplex:no-overlap")
+	}
+	if rem['A'+'B'-d] > 0 {
+		r.Count("duplex:other-side-cut-mid-write")
+	}
+	return evs
+}
+
+func runDuplex(r *hlib.Run, evs []dev) {
+	c := &dctl{evs: evs}
+	c.cond = sync.NewCond(&c.mu)
+	x := &dstream{c: c, rdir: 'A', wdir: 'B'}
+	y := &dstream{c: c, rdir: 'B', wdir: 'A'}
+	ch := tun.Pipe(x, y)
+	var errs []string
+	chanState, stuck := "closed", 0
+	guard := time.NewTimer(10 * time.Second)
+loop:
+	for {
+		select {
+		case e, ok := <-ch:
+			if !ok {
+				break loop
+			}
+			if e == nil {
+				errs = append(errs, "nil-sent")
+			} else if e == errStuck {
+				errs = append(errs, "stuck")
+			} else {
+				errs = append(errs, errName(e))
+			}
+		case <-guard.C:
+			if stuck == 1 {
+				chanState = "open"
+				break loop
+			}
+			stuck = 1 // nobody moves: fail every pending call and see whether Pipe at least completes
+			hangs++
+			c.mu.Lock()
+			c.abort = true
+			c.cond.Broadcast()
+			c.mu.Unlock()
+			guard.Reset(5 * time.Second)
+		}
+	}
+	guard.Stop()
+	sort.Strings(errs)
+	c.mu.Lock()
+	res := fmt.Sprintf("AB=%s;BA=%s;errs=%s;cA=%d;cB=%d;chan=%s;cap=%d;stuck=%d", hlib.Hex(y.received), hlib.Hex(x.received),
+		hlib.Join(errs, ","), x.closes, y.closes, chanState, cap(ch), stuck)
+	c.mu.Unlock()
+	lhs := "duplex " + schedTok(evs)
+	r.Emit(lhs, res)
+	r.Case(lhs)
 }
 
 type countConn struct {
@@ -408,7 +720,7 @@ func runLive(r *hlib.Run, rng *hlib.Rng) {
 
 func main() {
 	r := hlib.Start()
-	r.Rule = "copier = (reader script, writer script) through the real pipe(); pipe2 = real Pipe over two scripted streams; live = real Pipe over two bufconn pairs, random payloads both ways, either side closing (after a final tail write); non-trivial = distinct scripts/payloads"
+	r.Rule = "copier = (reader script, writer script) through one copier of the real Pipe, the opposite copier parked; pipe2 = real Pipe over two scripted streams; duplex = real Pipe with both directions busy at once, scheduled event by event, writes consumed piece by piece; live = real Pipe over two bufconn pairs, random payloads both ways, either side closing (after a final tail write); non-trivial = distinct scripts/payloads"
 	rng := hlib.NewRng(r.Seed)
 	if r.Replay != "" {
 		for _, t := range r.ReplayLines() {
@@ -417,6 +729,8 @@ func main() {
 				runCopier(r, parseReads(t[1]), parseWrites(t[2]))
 			case "pipe2":
 				runPipe2(r, parseReads(t[1]), parseWrites(t[2]), parseReads(t[3]), parseWrites(t[4]))
+			case "duplex":
+				runDuplex(r, parseSched(t[1]))
 			case "live":
 				runLive(r, rng)
 			}
@@ -424,9 +738,9 @@ func main() {
 		r.Finish()
 		return
 	}
-	nc, np, nl := 20000, 4000, 150
+	nc, np, nd, nl := 20000, 4000, 4000, 150
 	if r.Thorough() {
-		nc, np, nl = 300000, 60000, 1500
+		nc, np, nd, nl = 300000, 60000, 60000, 1500
 	}
 	for i := 0; i < nc; i++ {
 		rs := genReads(rng)
@@ -435,6 +749,9 @@ func main() {
 	for i := 0; i < np && hangs < 2; i++ {
 		ar, br := genReads(rng), genReads(rng)
 		runPipe2(r, ar, genWrites(rng, br), br, genWrites(rng, ar))
+	}
+	for i := 0; i < nd && hangs < 2; i++ {
+		runDuplex(r, genSched(r, rng))
 	}
 	for i := 0; i < nl && hangs < 2; i++ {
 		runLive(r, rng)
